@@ -113,7 +113,7 @@ class DefaultFunctionEstimator(FunctionEstimator):
     def _calculate_function_stddev(
         self, functions: NDArray[np.float64], weights: NDArray[np.float64]
     ) -> NDArray[np.float64]:
-        if np.count_nonzero(weights) < _MIN_STDDEV_REALIZATIONS:
+        if np.count_nonzero(weights > 0) < _MIN_STDDEV_REALIZATIONS:
             raise OptimizationAborted(exit_code=OptimizerExitCode.TOO_FEW_REALIZATIONS)
         functions = np.nan_to_num(functions)
         *_, stddev = self._mean_stddev(functions, weights)
@@ -125,7 +125,7 @@ class DefaultFunctionEstimator(FunctionEstimator):
         gradient: NDArray[np.float64],
         weights: NDArray[np.float64],
     ) -> NDArray[np.float64]:
-        if np.count_nonzero(weights) < _MIN_STDDEV_REALIZATIONS:
+        if np.count_nonzero(weights > 0) < _MIN_STDDEV_REALIZATIONS:
             raise OptimizationAborted(exit_code=OptimizerExitCode.TOO_FEW_REALIZATIONS)
         functions = np.nan_to_num(functions)
         norm, mean, stddev = self._mean_stddev(functions, weights)
